@@ -7,7 +7,8 @@ def run(prog, rep, tier):
     rep.clause = ("K1: in main()'s CFG every stdout write after the option loop is unreachable once `verbosity` (only ever 0 or -1) is -1; "
                   "K2: no library function references std::cout/stdout/printf-family (positive control under /verif/controls must be found); "
                   "Y1: flex's DFA analysis finds no matchable default (ECHO to stdout) rule; K3: main returns only constants in {0,1,2} and both "
-                  "function-level handlers return 2; K4: both handlers of the per-input try record the error through the overload that sets `errors`.")
+                  "function-level handlers return 2; K4: both handlers of the per-input try record the error through the overload that sets `errors`; K4b: that overload interpreted from source for every "
+                  "(-s given?, verbosity, flag before): it sets the flag exactly when verbosity >= 0, independent of -s, and returns std::cerr exactly when -s is absent.")
     rep.not_decided = ("header text, row-major iteration order over files and --a arguments, that -c prints the number of results, "
                        "-H/-h, -a vs --a equivalence (run-time text/values).")
     apply(rep, "K1", "-q: no stdout write reachable with verbosity == -1", r_cli.k1(prog), 4)
@@ -16,6 +17,7 @@ def run(prog, rep, tier):
     apply(rep, "Y1", "scanner has no matchable default rule; <<EOF>> per start condition", r_lex.y1(prog), 4)
     apply(rep, "K3", "exit status constants", r_cli.k3(prog), 10)
     apply(rep, "K4", "per-input handlers record errors", r_cli.k4(prog), 2)
+    apply(rep, "K4b", "the error is recorded whether or not -s silences its text (error_message interpreted)", r_cli.k4b(prog), 1)
     apply(rep, "K6", "no execution when there is no combination of argument values", r_cli.k6(prog), 1)
     apply(rep, "K5", "status flags accumulate over all inputs", r_cli.k5(prog), 2)
     apply(rep, "K7", "`-a X` passes X itself as one string value (parse_arg_literal interpreted with the libzwerg API modelled)", r_cli.k7(prog), 1)
